@@ -11,6 +11,7 @@ tie runs   : the same program + configuration is analysed by the REAL taint and 
 """
 import json
 import os
+import re
 import shutil
 
 import vlib
@@ -58,12 +59,13 @@ def run(chk):
     xproc = 1 if tier == "quick" else 4                     # processes per cpu setting
 
     progs = []      # (name, dir, config or None, specs (taint), specs (backtrace) )
+    manifests = {}
     d = os.path.join(work, "regress")
-    C.mugo(d, spec=json.load(open(REGRESS)))
+    manifests["regress"] = C.mugo(d, spec=json.load(open(REGRESS)))
     progs.append(("regress", d, None, "config_bt.yaml"))
     for k in range(1 if tier == "quick" else 4):
         d = os.path.join(work, "gen%d" % k)
-        C.mugo(d, seed=chk.seed * 1000 + 700 + k, n=(30 if tier == "quick" else 50))
+        manifests["gen%d" % k] = C.mugo(d, seed=chk.seed * 1000 + 700 + k, n=(30 if tier == "quick" else 50))
         progs.append(("gen%d" % k, d, None, "config_bt.yaml"))
     for name in (["escape-integration"] if tier == "quick" else ["escape-integration", "basic", "closures", "agent-example", "globals", "fromlevee"]):
         d = C05.stage_testdata(work, name)
@@ -163,6 +165,18 @@ def run(chk):
         what = [f for f in ("pairs", "escapes", "traces", "exit", "nerrors") if c0[f] != c1[f]]
         mode = ("od1" if "od=1" in base else "od0") + ("+fs" if "fs=1" in base else "")
         key = "nondeterministic:%s:%s:%s" % ("+".join(what), "bt" if "bt=1" in base else "taint", mode)
+        if what == ["traces"] and name in manifests:
+            # attribute the varying traces to scenarios (line of the backtrace point = sink line); when all of them merge
+            # two results of one call (atom kind multires) the key says so
+            lines = set()
+            for w2, c2 in diff:
+                for t in set(c0["traces"]) ^ set(c2["traces"]):
+                    m = re.search(r":(\d+):\d+", t[2])
+                    if m:
+                        lines.add(int(m.group(1)))
+            scs = [sc for sc in manifests[name]["scenarios"] if sc.get("sink_line") in lines]
+            if scs and all(any(a["kind"] == "multires" for a in sc["atoms"]) for sc in scs):
+                key += ":multires"
         rd = chk.replay_dir(key + ":" + name)
         pd = C.copy_prog(dirs[name], rd)
         with open(os.path.join(rd, "replay.txt"), "w") as f:
